@@ -20,11 +20,21 @@ fn opt(o: Option<&[u8]>) -> Value {
 }
 fn limbs(x: u32) -> Value { json!([(x >> 16) & 0xffff, x & 0xffff]) }
 
+macro_rules! view { ($h:expr) => { json!({"version": $h.version().0, "random": $h.random(), "session_id": opt($h.session_id()),
+           "ciphers": $h.ciphers().iter().map(|c| c.0).collect::<Vec<u16>>(), "comp": $h.comp().iter().map(|c| c.0).collect::<Vec<u8>>(),
+           "ext": opt($h.ext()), "rand_time": limbs($h.rand_time()), "rand_bytes": $h.rand_bytes(),
+           "cipher_suites": $h.cipher_suites().into_iter().map(suite).collect::<Vec<Value>>()}) }; }
 fn trait_view<'a, T: ClientHello<'a>>(h: &T) -> Value {
-    json!({"version": h.version().0, "random": h.random(), "session_id": opt(h.session_id()),
-           "ciphers": h.ciphers().iter().map(|c| c.0).collect::<Vec<u16>>(), "comp": h.comp().iter().map(|c| c.0).collect::<Vec<u8>>(),
-           "ext": opt(h.ext()), "rand_time": limbs(h.rand_time()), "rand_bytes": h.rand_bytes(),
-           "cipher_suites": h.cipher_suites().into_iter().map(suite).collect::<Vec<Value>>()})
+    let mut v = view!(h);
+    // the same accessors through a reference to the reference (method resolution must end at the same implementation) and through
+    // the trait's fully qualified form
+    let hh = &h;
+    let v2 = view!(hh);
+    let v3 = json!({"version": <T as ClientHello>::version(h).0, "random": <T as ClientHello>::random(h), "rand_bytes": <T as ClientHello>::rand_bytes(h),
+                    "rand_time": limbs(<T as ClientHello>::rand_time(h)), "session_id": opt(<T as ClientHello>::session_id(h)), "ext": opt(<T as ClientHello>::ext(h))});
+    if v2 != v { v["other_receiver"] = v2; }
+    for k in ["version", "random", "rand_bytes", "rand_time", "session_id", "ext"] { if v3[k] != v[k] { v["other_receiver"] = v3.clone(); } }
+    v
 }
 
 fn enc_client_hello(dtls: bool, ver: u16, random: &[u8], sid: &Option<Vec<u8>>, ciphers: &[u16], comp: &[u8], ext: &Option<Vec<u8>>) -> Vec<u8> {
